@@ -54,19 +54,32 @@ func evalC10(pos string, d []byte) (vs []*Violation) {
 	cl := numClass(v, d)
 	switch pos {
 	case "cseq":
-		buf := append(append([]byte(nil), d...), " INVITE\r\nX"...)
-		var b sipsp.PCSeqBody
-		_, e := sipsp.ParseCSeqVal(buf, 0, &b)
-		if e == 0 {
-			f := bigOf(b.CSeq.Get(buf))
-			if f == nil || new(big.Int).SetUint64(uint64(b.CSeqNo)).Cmp(f) != 0 {
-				add("ParseCSeqVal", "value-equals-digit-string", cl, fmt.Sprintf("CSeq %q reported as %d", b.CSeq.Get(buf), b.CSeqNo))
+		// the number is followed by method names with and without digits: digits of the method never count
+		for mi, mth := range []string{"INVITE", "FOO2BAR", "M1", "X007", "P2P", "A6"} {
+			buf := append(append(append([]byte(nil), d...), ' '), mth...)
+			buf = append(buf, "\r\nX"...)
+			var b sipsp.PCSeqBody
+			_, e := sipsp.ParseCSeqVal(buf, 0, &b)
+			mc := cl
+			if mi > 0 {
+				mc += "/method-with-digits"
 			}
-		} else if e == sipsp.ErrHdrMoreBytes {
-			add("ParseCSeqVal", "definitive", cl, "more-bytes on complete header")
-		}
-		if v.Cmp(bigU32) > 0 && e == 0 {
-			add("ParseCSeqVal", "out-of-range-rejected", cl, fmt.Sprintf("CSeq %s accepted (value %d)", d, b.CSeqNo))
+			if e == 0 {
+				f := bigOf(b.CSeq.Get(buf))
+				if f == nil || new(big.Int).SetUint64(uint64(b.CSeqNo)).Cmp(f) != 0 || f.Cmp(v) != 0 {
+					add("ParseCSeqVal", "value-equals-digit-string", mc, fmt.Sprintf("%q: CSeq %q reported as %d", buf, b.CSeq.Get(buf), b.CSeqNo))
+				}
+				if string(b.Method.Get(buf)) != mth {
+					add("ParseCSeqVal", "value-equals-digit-string", mc+"/method", fmt.Sprintf("%q: method %q", buf, b.Method.Get(buf)))
+				}
+			} else if e == sipsp.ErrHdrMoreBytes {
+				add("ParseCSeqVal", "definitive", mc, "more-bytes on complete header")
+			} else if v.Cmp(bigU32) <= 0 && len(d) <= 10 {
+				add("ParseCSeqVal", "in-range-accepted", mc, fmt.Sprintf("%q rejected: %v", buf, e))
+			}
+			if v.Cmp(bigU32) > 0 && e == 0 {
+				add("ParseCSeqVal", "out-of-range-rejected", mc, fmt.Sprintf("CSeq %s accepted (value %d)", d, b.CSeqNo))
+			}
 		}
 	case "clen", "expires":
 		buf := append(append([]byte(nil), d...), "\r\nX"...)
